@@ -384,6 +384,156 @@ def run_gcm_and_sign(ctx, n):
     return count
 
 
+# ---------------------------------------------------------------- server operations (real KmipEngine + real crypto)
+def mon_c06_hist(h, outs):
+    """derived / created key material stored by the server has exactly the requested length"""
+    import monitors_engine as M
+    fails = []
+    for i, j, o, before, after, pol in M.iter_requests(h, outs):
+        if after is None or "results" not in o:
+            continue
+        a = M.by_uid(after)
+        for it, r in zip(j["req"]["items"], o["results"]):
+            if r.get("status") != "ok" or it["op"] not in ("deriveKey", "create") or not it.get("tmpl"):
+                continue
+            want = [x["value"]["v"] for x in it["tmpl"]["attrs"]
+                    if x["name"] == "Cryptographic Length" and x["value"].get("k") == "int"]
+            u = str((r.get("data") or {}).get("uid"))
+            if len(want) == 1 and u in a and len(a[u]["value"]) * 4 != want[0]:
+                fails.append(("c06:stored-material-length:%s:%d" % (it["op"], it.get("otype", 0)),
+                              "%s of object type %s asked for %d bits, the stored value has %d bits"
+                              % (it["op"], it.get("otype"), want[0], len(a[u]["value"]) * 4), i))
+    return fails
+
+
+def run_server(ctx, reps):
+    """Create / DeriveKey / Encrypt / Decrypt / MAC / Sign / SignatureVerify through KmipEngine.process_request with
+    the real CryptographyEngine, compared with independent references"""
+    import impl_engine as IE
+    from cryptography.hazmat.primitives.ciphers import Cipher, algorithms, modes
+    from cryptography.hazmat.backends import default_backend
+    r = random.Random(ctx.seed + 61)
+    count = 0
+    HN = {4: "sha1", 6: "sha256", 8: "sha512"}
+
+    def rb(k):
+        return bytes(r.randrange(256) for _ in range(k))
+
+    def attr(n, v, i=None):
+        return {"name": n, "index": i, "value": v}
+    Eg = IE.ImplEngine(scripted_crypto=False)
+    try:
+        def req(items, v=14):
+            o = Eg.handle({"cmd": "req", "now": 1000, "id": {"user": "alice", "groups": None},
+                           "req": {"version": v, "ts": None, "async": None, "bopt": None, "maxsize": None, "items": items}})
+            return o["results"]
+
+        def register(value, alg, mask, otype=2, fmt=1):
+            t = {"tnames": 0, "attrs": [attr("Cryptographic Usage Mask", {"k": "int", "v": mask})]}
+            res = req([{"op": "register", "bid": None, "crypto": None, "otype": otype, "tmpl": t,
+                        "obj": {"otype": otype, "value": value.hex(), "alg": alg, "len": len(value) * 8, "format": fmt,
+                                "subtype": None}}])
+            uid = res[0]["data"]["uid"]
+            req([{"op": "activate", "bid": None, "uid": uid}])
+            return uid
+
+        def get_value(uid):
+            d = req([{"op": "get", "bid": None, "uid": uid, "wrap": None, "format": None, "compression": False}])[0]
+            return d.get("data") or {}
+        for _ in range(reps):
+            key = rb(r.choice([16, 32]))
+            base = register(key, 3, 0x200 | 4 | 8)
+            for otype in (2, 7):
+                for method in ("HASH", "HMAC", "PBKDF2", "NIST", "ENCRYPT"):
+                    hcode = r.choice(sorted(HN))
+                    hn = HN[hcode]
+                    hl = hashlib.new(hn).digest_size
+                    for nbytes in sorted(set([8, 16, hl, r.choice([1, 3, 24])])):
+                        tmpl = {"tnames": 0, "attrs": [attr("Cryptographic Length", {"k": "int", "v": nbytes * 8})] +
+                                ([attr("Cryptographic Algorithm", {"k": "enum", "v": 3})] if otype == 2 else [])}
+                        it = {"op": "deriveKey", "bid": None, "otype": otype, "uids": [base], "tmpl": tmpl, "cp": {"hash": hcode}}
+                        ddata, salt, iv = rb(r.choice([1, 16, 20])), rb(8), rb(16)
+                        if method == "HASH":
+                            it.update(method=2, ddata_hex="")
+                            ref = hashlib.new(hn, key).digest()
+                        elif method == "HMAC":
+                            it.update(method=3, ddata_hex=ddata.hex(), salt_hex=salt.hex())
+                            ref = ref_hkdf(hn, key, salt, ddata, nbytes)
+                        elif method == "PBKDF2":
+                            iters = r.choice([1, 3, 20])
+                            it.update(method=1, salt_hex=salt.hex(), iters=iters)
+                            ref = hashlib.pbkdf2_hmac(hn, key, salt, iters, nbytes)
+                        elif method == "NIST":
+                            it.update(method=5, ddata_hex=ddata.hex())
+                            ref = ref_kbkdf_counter(hn, key, ddata, nbytes)
+                        else:
+                            it.update(method=4, ddata_hex=ddata.hex(), div_hex=iv.hex(), cp={"mode": 1, "padding": 3, "alg": 3})
+                            c = Cipher(algorithms.AES(key), modes.CBC(iv), backend=default_backend()).encryptor()
+                            pad = 16 - len(ddata) % 16
+                            ref = c.update(ddata + bytes([pad]) * pad) + c.finalize()
+                        count += 1
+                        res = req([it])[0]
+                        if res.get("status") != "ok":
+                            if nbytes <= len(ref):
+                                ctx.report("c06:server-derive-refused:%s" % method,
+                                           "DeriveKey %s/%s for %d bytes of object type %d failed: %s"
+                                           % (method, hn, nbytes, otype, res.get("msg")), {"kind": "server", "item": it, "key": key.hex()})
+                            continue
+                        got = get_value(res["data"]["uid"])
+                        val = bytes.fromhex(got.get("value") or "")
+                        if len(val) != nbytes:
+                            ctx.report("c06:derived-length:%s:%d" % (method, otype),
+                                       "DeriveKey %s for %d bytes of object type %d stored %d bytes"
+                                       % (method, nbytes, otype, len(val)), {"kind": "server", "item": it, "key": key.hex()})
+                        elif val != ref[:nbytes]:
+                            ctx.report("c06:derived-differs-from-reference:%s:%d" % (method, otype),
+                                       "DeriveKey %s/%s output differs from the independent reference" % (method, hn),
+                                       {"kind": "server", "item": it, "key": key.hex()})
+                        if otype == 2 and got.get("len") != nbytes * 8:
+                            ctx.report("c06:derived-length-attribute", "derived key reports length %s for %d bytes"
+                                       % (got.get("len"), nbytes), {"kind": "server", "item": it, "key": key.hex()})
+            # Create: fresh material of the requested length
+            seen = set()
+            for bits in (128, 192, 256):
+                for _k in range(3):
+                    t = {"tnames": 0, "attrs": [attr("Cryptographic Algorithm", {"k": "enum", "v": 3}),
+                                                attr("Cryptographic Length", {"k": "int", "v": bits}),
+                                                attr("Cryptographic Usage Mask", {"k": "int", "v": 12})]}
+                    res = req([{"op": "create", "bid": None, "crypto": None, "otype": 2, "tmpl": t}])[0]
+                    count += 1
+                    if res.get("status") != "ok":
+                        continue
+                    val = get_value(res["data"]["uid"]).get("value") or ""
+                    if len(val) * 4 != bits:
+                        ctx.report("c06:created-key-length", "Create AES-%d stored %d bits" % (bits, len(val) * 4), {"kind": "server"})
+                    if val in seen:
+                        ctx.report("c06:created-key-repeated", "Create returned the same material twice", {"kind": "server"})
+                    seen.add(val)
+            # Encrypt / Decrypt with a stored key
+            for mode, mcls, padded in ((1, modes.CBC, True), (6, modes.CTR, False), (5, modes.OFB, False)):
+                pt, iv = rb(r.choice([0, 1, 16, 33])), rb(16)
+                cp = {"mode": mode, "padding": 3 if padded else None, "alg": 3}
+                res = req([{"op": "encrypt", "bid": None, "uid": base, "params": True, "cp": cp, "data_hex": pt.hex(),
+                            "iv_hex": iv.hex()}])[0]
+                count += 1
+                if res.get("status") != "ok":
+                    if pt:
+                        ctx.report("c06:server-encrypt-refused:%d" % mode, "Encrypt failed: %s" % res.get("msg"), {"kind": "server"})
+                    continue
+                ct = bytes.fromhex(res["data"]["c"])
+                c = Cipher(algorithms.AES(key), mcls(iv), backend=default_backend()).encryptor()
+                pad = 16 - len(pt) % 16
+                if ct != c.update(pt + bytes([pad]) * pad if padded else pt) + c.finalize():
+                    ctx.report("c06:server-encrypt-differs:%d" % mode, "Encrypt differs from an independent use of the cipher", {"kind": "server"})
+                back = req([{"op": "decrypt", "bid": None, "uid": base, "params": True, "cp": cp, "data_hex": ct.hex(),
+                             "iv_hex": iv.hex()}])[0]
+                if back.get("status") != "ok" or bytes.fromhex(back["data"]["c"]) != pt:
+                    ctx.report("c06:server-decrypt-not-inverse:%d" % mode, "Decrypt(Encrypt(m)) != m through the server", {"kind": "server"})
+    finally:
+        Eg.close()
+    return count
+
+
 def run(ctx):
     import logging
     logging.disable(logging.CRITICAL)
@@ -391,8 +541,22 @@ def run(ctx):
     npad = run_padding(ctx, 400 if ctx.tier == "quick" else 20000)
     nref = run_references(ctx, 6 if ctx.tier == "quick" else 300)
     nsig = run_gcm_and_sign(ctx, 20 if ctx.tier == "quick" else 500)
+    nsrv = run_server(ctx, 2 if ctx.tier == "quick" else 40)
+    import engine_check
+    prof = {"ops": {"create": 4, "register": 4, "deriveKey": 12, "get": 5, "activate": 3, "encrypt": 2, "decrypt": 2,
+                    "mac": 2, "sign": 1, "createKeyPair": 1}, "restart": 0.02}
+    hs = engine_check.run_many([ctx.seed * 1000003 + 77000 + i for i in range(60 if ctx.tier == "quick" else 1200)], 25, prof, True, None)
+    engine_check.report_monitor_failures(ctx, hs, [mon_c06_hist])
+    divs = engine_check.correspondence(ctx, hs)
+    nhist = sum(1 for h, _ in hs for j in h if j.get("cmd") == "req")
+    if divs and not ctx.violations:
+        ctx.report("correspondence:engine-model", "engine model and KmipEngine disagree on crypto-operation histories "
+                   "(%d diverging); no monitor failed" % len(divs),
+                   {"kind": "correspondence", "broken": "correspondence Drivers/Engine.lean vs KmipEngine (C06 histories)",
+                    "lines": divs[0]["history"], "impl": divs[0]["impl"], "model": divs[0]["model"]}, no_input=True)
     ctx.coverage.update({
-        "evaluations": nplan + npad + nref + nsig, "distinct_nontrivial": stats["accepted"] + stats["rejected"],
+        "evaluations": nplan + npad + nref + nsig + nsrv + nhist, "server_operation_checks": nsrv,
+        "engine_history_requests": nhist, "engine_history_divergences": len(divs), "distinct_nontrivial": stats["accepted"] + stats["rejected"],
         "rule": RULE, "samples": [{"plan_tuple": "(alg=3 AES, mode=1 CBC, padding=3 PKCS5, iv absent, no aad)",
                                   "model": "ivGenerated, padding applied, iv length 16"}],
         "plan_tuples": nplan, "plan_accepted": stats["accepted"], "plan_rejected": stats["rejected"],
